@@ -41,6 +41,8 @@ pub struct World {
     /// wrappers around `&mut T` whose `AsRef<[u8]>` exposes a field of `T` and whose `Drop` calls a method of `T`
     /// (checked against the source by a `dropimpl` target): wrapper -> (T, exposed field, method run on drop)
     pub drop_views: BTreeMap<String, (String, String, String)>,
+    /// structs that deref to `&[u8]` of length `self.<field>` (checked by a `derefslice` target): struct -> field
+    pub slice_len: BTreeMap<String, String>,
 }
 
 #[derive(Clone, Debug)]
@@ -184,8 +186,14 @@ impl World {
                             }
                         }
                     }
+                    // `only=a,b`: the listed fields (the others have types outside the subset and are not touched
+                    // by the translated functions — a function that does touch one is untranslatable)
+                    let only: Option<Vec<&str>> = opts.get("only").map(|o| o.split(',').collect());
                     for fl in s.fields.iter() {
                         let n = fl.ident.as_ref().ok_or("tuple struct")?.to_string();
+                        if let Some(o) = &only {
+                            if !o.contains(&n.as_str()) { continue; }
+                        }
                         fields.push((n, self.ty_of(&fl.ty, &g)?));
                     }
                     let is_ext = fields.iter().any(|(_, t)| *t == Ty::Cursor || *t == Ty::ExtW);
@@ -255,6 +263,31 @@ impl World {
         let on_drop = on_drop.ok_or_else(|| format!("no `impl Drop for {}`", name))?;
         self.drop_views.insert(name.to_string(), (target.to_string(), exposed.clone(), on_drop.clone()));
         Ok(format!("-- checked on the source: `{}` wraps `&mut {}`, `as_ref()` is its `{}`, dropping it calls `{}()`\n", name, target, exposed, on_drop))
+    }
+
+    /// `derefslice <file> <Struct> <field>`: checks that `impl Deref for Struct` is
+    /// `unsafe { slice::from_raw_parts(self.<ptr>.as_ptr(), self.<field>) }`, so that `x.len()` is `x.<field>`.
+    pub fn tr_derefslice(&mut self, f: &File, name: &str, field: &str) -> R<String> {
+        for it in &f.items {
+            if let Item::Impl(im) = it {
+                let self_name = match &*im.self_ty { Type::Path(p) => p.path.segments.last().map(|s| s.ident.to_string()).unwrap_or_default(), _ => String::new() };
+                let tr = im.trait_.as_ref().map(|(_, p, _)| p.to_token_stream().to_string().replace(' ', "")).unwrap_or_default();
+                if self_name != name || !(tr == "Deref" || tr.ends_with("::Deref")) { continue; }
+                for ii in &im.items {
+                    if let ImplItem::Fn(m) = ii {
+                        if m.sig.ident != "deref" { continue; }
+                        let body = m.block.to_token_stream().to_string().replace(' ', "");
+                        let suffix = format!(".as_ptr(),self.{})}}}}", field);
+                        if body.starts_with("{unsafe{slice::from_raw_parts(self.") && body.ends_with(&suffix) {
+                            self.slice_len.insert(name.to_string(), field.to_string());
+                            return Ok(format!("-- checked on the source: `{}` derefs to a byte slice of length `self.{}`\n", name, field));
+                        }
+                        return Err(format!("Deref for {} is not `slice::from_raw_parts(self.<ptr>.as_ptr(), self.{})`", name, field));
+                    }
+                }
+            }
+        }
+        Err(format!("no `impl Deref for {}`", name))
     }
 
     pub fn tr_enum(&mut self, f: &File, name: &str) -> R<String> {
